@@ -129,7 +129,84 @@ def _mapping_idempotent(ctx: Ctx):
     ok2, d2 = holds(ctx, "extrakeys_empty")
     if not ok2:
         return False, d2
-    return n > 0, f"{n} mappings with disjoint keys and values; no extra-key mapping"
+    ok3, d3 = _mapped_cache_private(ctx)
+    if not ok3:
+        return False, d3
+    return n > 0, f"{n} mappings with disjoint keys and values; no extra-key mapping; {d3}"
+
+
+_P2D = "spil.sid.pathops.fs_resolver.path_to_dict"
+_RESOLVE = ("resolva.resolver.Resolver.resolve_one", "resolva.resolver.Resolver.resolve_first", "resolva.resolver.Resolver.resolve_all")
+
+
+def _is_sid_resolver(c, path_names, ctx=None, f=None, depth=0) -> bool:
+    """c is Resolver.get(<constant string naming no path configuration>), directly, through a class constant, or as the
+    value every return of a called library function gives"""
+    if not isinstance(c, ast.Call):
+        return False
+    d = dotted(c.func)
+    if d and d.endswith("Resolver.get") and len(c.args) == 1 and not c.keywords:
+        a = c.args[0]
+        if isinstance(a, ast.Attribute) and isinstance(a.value, ast.Name) and a.value.id in ("cls", "self") and f is not None \
+                and getattr(f, "cls", None) is not None:
+            vals = [n.value for n in f.cls.node.body if isinstance(n, ast.Assign)
+                    and any(isinstance(t, ast.Name) and t.id == a.attr for t in n.targets)]
+            a = vals[0] if len(vals) == 1 else a
+        return isinstance(a, ast.Constant) and isinstance(a.value, str) and a.value not in path_names
+    if ctx is None or f is None or depth > 2:
+        return False
+    for cs in ctx.cg.sites.get(f.qualname, []):
+        if cs.node is c and cs.targets:
+            ok = True
+            for t in cs.targets:
+                rets = [n.value for n in own_nodes(t.node) if isinstance(n, ast.Return)]
+                if not rets or not all(r is not None and _is_sid_resolver(r, path_names, ctx, t, depth + 1) for r in rets):
+                    ok = False
+            return ok
+    return False
+
+
+def _mapped_cache_private(ctx: Ctx):
+    """The dictionaries that path_to_dict rewrites in place belong to the lru caches of a *path* Resolver.  Idempotence
+    only hides the rewrite from path_to_dict itself (which re-applies the mapping): any other function that reads the
+    content of a resolve_* result of a path Resolver sees unmapped values on the first call and mapped ones afterwards.
+    Holds when every other resolve_* call site in the library is on Resolver.get(<constant that is no path
+    configuration>) (the sid resolver: another instance, other cache entries) or only tests the result for truth."""
+    path_names = set(ctx.conf.path_configs)
+    n = 0
+    for f in ctx.p.iter_functions(kinds=("library", "config")):
+        if f.qualname == _P2D:
+            continue
+        sites = [cs for cs in ctx.cg.sites.get(f.qualname, []) if isinstance(cs.node, ast.Call)
+                 and isinstance(cs.node.func, ast.Attribute) and any(t.qualname in _RESOLVE for t in cs.targets)]
+        if not sites:
+            continue
+        truth_only = set()
+        for node in own_nodes(f.node):
+            tests = []
+            if isinstance(node, (ast.If, ast.While, ast.IfExp, ast.Assert)):
+                tests.append(node.test)
+            elif isinstance(node, ast.UnaryOp) and isinstance(node.op, ast.Not):
+                tests.append(node.operand)
+            elif isinstance(node, ast.Call) and isinstance(node.func, ast.Name) and node.func.id == "bool" and node.args:
+                tests.append(node.args[0])
+            for t in tests:
+                truth_only.add(id(t))
+        for cs in sites:
+            n += 1
+            if id(cs.node) in truth_only:
+                continue
+            recv = cs.node.func.value
+            if isinstance(recv, ast.Name):
+                origins = [n.value for n in own_nodes(f.node) if isinstance(n, ast.Assign)
+                           and any(isinstance(t, ast.Name) and t.id == recv.id for t in n.targets)]
+            else:
+                origins = [recv]
+            other = bool(origins) and all(_is_sid_resolver(c, path_names, ctx, f) for c in origins)
+            if not other:
+                return False, (f"{f.qualname} (line {cs.lineno}) reads `{norm(cs.node)}`: a result of a path Resolver's cache, which "
+                               f"path_to_dict rewrites in place (unmapped values on the first call, mapped ones afterwards)")
+    return True, f"{n} other resolve_* call sites are on the sid resolver"
 
 
 @cond("sid_to_dict_pair")
